@@ -390,11 +390,18 @@ fn anf<'a>(
             anfenv,
             gensym,
             *value,
-            Box::new(move |ve| AExpr::ALet {
-                name,
-                value: Box::new(ve),
-                body: Box::new(anf(anfenv, gensym, *body, k)),
-                ty: e_ty.clone(),
+            Box::new(move |ve| {
+                // the let has the type of what follows it: with a continuation that is not
+                // the identity (`(match f() { .. }) < 3` binds a temporary inside the
+                // comparison) that is not the type of the let expression itself
+                let body = anf(anfenv, gensym, *body, k);
+                let ty = body.get_ty();
+                AExpr::ALet {
+                    name,
+                    value: Box::new(ve),
+                    body: Box::new(body),
+                    ty,
+                }
             }),
         ),
         LiftExpr::EIf {
